@@ -450,6 +450,12 @@ func (t *HToken) TxPlain(script string) (string, error) { return t.runScript(scr
 // QuerySym reports the symbol of the configuration in force.
 func (t *HToken) QuerySym() (string, error) { return t.ContractConfig().GetSymbol(), nil }
 
+// QueryTokWallets reports the wallets of the token section in force (issuer, fee setter, fee address setter, redeemer).
+func (t *HToken) QueryTokWallets() (string, error) {
+	tc := t.TokenConfig()
+	return strings.Join([]string{tc.GetIssuer().GetAddress(), tc.GetFeeSetter().GetAddress(), tc.GetFeeAddressSetter().GetAddress(), tc.GetRedeemer().GetAddress()}, "|"), nil
+}
+
 // HBase is a contract built on the base contract alone (no token section).
 // HExtToken is a token with a chaincode-specific configuration section of its own (ext_config: a Wallet
 // message whose address must not be empty), like the repository's industrial token: both the token
